@@ -24,6 +24,45 @@ def free_of(e):
     return tuple(zip(e.ufl_free_indices, e.ufl_index_dimensions))
 
 
+def static_mismatch(e):
+    """Python mirror of C10_wf.wfdims on real objects: first node whose operands disagree on the
+    extent of an index (or None)."""
+    import ufl.classes as C
+    from ufl.corealg.traversal import unique_pre_traversal
+
+    def fd(x):
+        return dict(zip(x.ufl_free_indices, x.ufl_index_dimensions))
+    for x in unique_pre_traversal(e):
+        if x._ufl_is_terminal_:
+            continue
+        ops = [o for o in x.ufl_operands if isinstance(o, C.Expr) and not isinstance(o, C.MultiIndex | C.Label)]
+        if isinstance(x, C.Conditional):
+            ops = ops[1:]
+        if isinstance(x, C.Sum | C.Conditional | C.ListTensor):
+            for o in ops[1:]:
+                if fd(o) != fd(ops[0]):
+                    return {"kind": "index-extents", "node": type(x).__name__, "node_str": str(x)[:300],
+                            "operand_free_indices": [sorted(fd(o).items()) for o in ops]}
+        elif isinstance(x, C.IndexSum):
+            (k,) = x.ufl_operands[1]
+            if fd(x.ufl_operands[0]).get(k.count()) != x.dimension():
+                return {"kind": "index-extents", "node": "IndexSum", "node_str": str(x)[:300]}
+        elif isinstance(x, C.Indexed):
+            a, mi = x.ufl_operands
+            for i, d in zip(mi, a.ufl_shape):
+                if isinstance(i, C.Index) and fd(x).get(i.count()) != d:
+                    return {"kind": "index-extents", "node": "Indexed", "node_str": str(x)[:300],
+                            "index": i.count(), "axis_extent": d, "recorded": fd(x).get(i.count())}
+        else:
+            m = {}
+            for o in ops:
+                for i, d in fd(o).items():
+                    if m.setdefault(i, d) != d:
+                        return {"kind": "index-extents", "node": type(x).__name__, "node_str": str(x)[:300],
+                                "index": i, "extents": [m[i], d]}
+    return None
+
+
 def mismatch(out, inp, trials=6, seed=0, env_factory=None, rename=None, nv=2):
     """Property oracle on the real objects: same shape, same free indices (after `rename`:
     in-count -> out-count), equal values for random exact rational fields.  Returns a JSON-able
@@ -36,6 +75,9 @@ def mismatch(out, inp, trials=6, seed=0, env_factory=None, rename=None, nv=2):
     if tuple(sorted(free_of(out))) != fexp:
         return {"kind": "free-indices", "implementation": [list(x) for x in free_of(out)],
                 "expected": [list(x) for x in fexp]}
+    sm = static_mismatch(out)
+    if sm is not None and static_mismatch(inp) is None:
+        return sm
     rng = random.Random(seed)
     comps = list(itertools.product(*[range(d) for d in inp.ufl_shape]))
     vals = list(itertools.product(*[range(d) for _, d in fin]))
